@@ -1,4 +1,5 @@
 import BtcwVerif.Lemmas.Balance
+import BtcwVerif.Lemmas.InvPres
 /-!
 # C01 — balance and spendable outputs equal ledger truth
 
@@ -173,6 +174,80 @@ theorem invB_sound (s : Store) (h : invB s = true) : Inv s := by
         | tail _ hx' => have := (List.pairwise_cons.mp ht).1 x hx'; omega
   · intro p hp tx htx
     exact h5 p hp tx htx
+
+/-- the freshly created store satisfies the invariant -/
+theorem C01_inv_init : Inv Store.empty := invB_sound _ (by decide)
+
+/-- one API call of the events *seen*, *abandoned*, *lease*, *release*, *sweep* -/
+inductive UnminedOp
+  | insertUnmined (rec : Tx)                       -- InsertTx(rec, nil)
+  | addCreditUnmined (rec : Tx) (i : Nat) (chg : Bool)   -- AddCredit(rec, nil, i, chg)
+  | removeUnmined (rec : Tx)                       -- RemoveUnminedTx(rec)
+  | lock (id : Nat) (op : OutPoint) (d : Int)
+  | unlock (id : Nat) (op : OutPoint)
+  | sweep
+
+/-- effect of such a call at clock `now` (a failing call leaves the store unchanged: the DB transaction rolls back) -/
+def UnminedOp.run (s : Store) (now : Nat) : UnminedOp → Store
+  | .insertUnmined rec => match insertTx s rec none with | .ok (_, s') => s' | .error _ => s
+  | .addCreditUnmined rec i chg => match addCredit s rec none i chg with | .ok s' => s' | .error _ => s
+  | .removeUnmined rec => match removeUnminedTx s rec with | .ok s' => s' | .error _ => s
+  | .lock id op d => match lockOutput s now id op d with | .ok (_, s') => s' | .error _ => s
+  | .unlock id op => match unlockOutput s now id op with | .ok s' => s' | .error _ => s
+  | .sweep => deleteExpiredLockedOutputs s now
+
+theorem sameMined_run (s : Store) (now : Nat) (o : UnminedOp) : SameMined s (o.run s now) := by
+  cases o with
+  | insertUnmined rec =>
+    simp only [UnminedOp.run]
+    split
+    · rename_i ex s' h
+      unfold insertTx at h
+      simp only at h
+      split at h
+      · cases h; exact SameMined.refl s
+      · cases h
+      · rename_i s2 h2; cases h; exact sameMined_insertMemPoolTx h2
+    · exact SameMined.refl s
+  | addCreditUnmined rec i chg =>
+    simp only [UnminedOp.run]
+    split
+    · rename_i s' h; exact sameMined_addCredit_unmined h
+    · exact SameMined.refl s
+  | removeUnmined rec =>
+    simp only [UnminedOp.run]
+    split
+    · rename_i s' h; exact sameMined_removeUnminedTx h
+    · exact SameMined.refl s
+  | lock id op d =>
+    simp only [UnminedOp.run]
+    split
+    · rename_i e s' h; exact sameMined_lockOutput h
+    · exact SameMined.refl s
+  | unlock id op =>
+    simp only [UnminedOp.run]
+    split
+    · rename_i s' h; exact sameMined_unlockOutput h
+    · exact SameMined.refl s
+  | sweep => exact sameMined_sweep s now
+
+/-- **the invariant is preserved** by every sequence (any length, any clock values) of the API calls that make up
+the events *seen*, *abandoned*, *lease*, *release*, *sweep*, *clock* — including malformed calls (unknown
+transactions, duplicate deliveries, removal of a transaction that is not unconfirmed).
+`_partial`: the two remaining events, *confirmed* (`insertMinedTx` + mined `addCredit`) and *disconnected*
+(`rollback`), are not covered by a proof; the driver checks `invB` after each of them on every generated history. -/
+theorem C01_inv_preserved_partial (s : Store) (h : Inv s) (ops : List (Nat × UnminedOp)) :
+    Inv (ops.foldl (fun s p => p.2.run s p.1) s) := by
+  induction ops generalizing s with
+  | nil => exact h
+  | cons p t ih => exact ih _ (inv_of_sameMined (sameMined_run s p.1 p.2) h)
+
+/-- consequently `Balance` stays equal to the C01 formula along every such sequence, at every instant -/
+theorem C01_balance_along_unmined_events_partial (s : Store) (h : Inv s) (ops : List (Nat × UnminedOp))
+    (now : Nat) (mat m sy : Int) :
+    let s' := ops.foldl (fun s p => p.2.run s p.1) s
+    balance s' now mat m sy = .ok (storeTruth s' now mat m sy) :=
+  C01_balance_partial _ (C01_inv_preserved_partial s h ops) now mat m sy
 
 /-- non-vacuity of `C01_balance_partial`: the example store satisfies `Inv` -/
 example : Inv exStore := invB_sound _ (by decide)
